@@ -53,7 +53,8 @@ def poll_set_prunes(prog, chk, rid):
         raise AnalysisBroken("Socket::Poll::Private::set (epoll) not found")
     f = ps[0]
     defs = q.local_defs(f)
-    masks = [s for s in q.stores(f) if s.op == "&=" and "selectedEvents" in f.r(s.lhs)]
+    # the buffered-events word: the target of an `&=` whose (expanded) designation comes out of the selectedSockets table
+    masks = [s for s in q.stores(f) if s.op == "&=" and "selectedSockets" in q.xr(f, s.lhs, defs)]
     ok = False
     why = "the buffered events are not masked at all"
     if masks:
@@ -74,7 +75,7 @@ def poll_set_prunes(prog, chk, rid):
             if rd is not None and any(q.reaches(f, o.node, rd) for o in ov if f.dominates_pos(f.node_pos(o.node), f.node_pos(masks[0].node))):
                 ok, why = False, "the registered flags are overwritten before the removed set is computed"
         drop = [c for c in q.calls(f) if re.search(r"selectedSockets\.remove\(", f.r(c))]
-        if ok and not (drop and any(a[0] != "case" and a[1] and re.search(r"selectedEvents == 0", fin.key(f, a[0])) for a in fin.dominating_atoms(f, f.node_pos(drop[0])))):
+        if ok and not (drop and any(a[0] != "case" and a[1] and fin.key(f, a[0]) == "(%s == 0)" % f.r(masks[0].lhs) for a in fin.dominating_atoms(f, f.node_pos(drop[0])))):
             ok, why = False, "an emptied buffered entry is not dropped"
     if ok:
         chk.ok(rid, f, "Poll::set masks buffered events with exactly the removed flags and drops emptied entries", f.where(masks[0].node), "mask shape + order", evals=3)
@@ -131,7 +132,7 @@ def run(prog, chk):
                     "are missed (a removed timer stays queued and fires on a destroyed object)")
     # the scan itself: an entry with the wanted key that is not the wanted entry must not end the scan
     rt = sfn(prog, P + "remove", 1, "TimerImpl")
-    heads = [b for b in rt.blocks.values() if b.get("tk") == "ForStmt" and b.get("cond") is not None]
+    heads = [b for b in rt.blocks.values() if b.get("tk") in ("ForStmt", "WhileStmt") and b.get("cond") is not None and len(b["succ"]) == 2]
     if not heads:
         chk.bad("C14.T1", rt, "timer-scan-missing", "%s:%s" % (rt.file, rt.line), "remove(TimerImpl&) no longer scans the queue for the timer's entry")
     else:
@@ -312,13 +313,14 @@ def run(prog, chk):
         chk.ok("C14.T7", run_, "closing loop pops the client before calling onClosed", run_.where(inloop[0]), "ORD", evals=2)
     else:
         chk.bad("C14.T7", run_, "closing-loop-order", "%s:%s" % (run_.file, run_.line), "the closing loop must remove the client from _closingClients before onClosed() (the callback usually removes the client)")
-    sws = [i for i, n in enumerate(run_.nodes) if n["k"] == "SwitchStmt" and any(run_.nodes[x]["k"] == "DeclRefExpr" and run_.nodes[x]["ref"]["n"] == "sent" for x in run_.desc(n["c"][0] if n["c"][0] >= 0 else n["c"][1]))]
-    inside = set(x for sw_ in sws for x in run_.desc(sw_))
-    dr_closed = [c for c in q.calls(run_) if re.search(r"->onClosed\(\)", run_.r(c)) and c in inside]
-    if dr_closed:
-        chk.ok("C14.T7", run_, "failed drain delivers onClosed", run_.where(dr_closed[0]), "case 0 / -1 arm", nontrivial=False)
+    # the drain arm of run(): decision table over the result classes of send (no assumption about switch / if shape)
+    tabd = io_outcomes(run_, "Socket::send")
+    if tabd is not None and tabd["closed"][0] and tabd["error"][0] and not tabd["would-block"][0] and not tabd["partial"][0] and not tabd["full"][0]:
+        chk.ok("C14.T7", run_, "failed drain delivers onClosed (closed and error outcomes only)", "%s:%s" % (run_.file, run_.line), "decision table (guard-directed walk)", evals=5)
     else:
-        chk.bad("C14.T7", run_, "drain-failure-without-close", "%s:%s" % (run_.file, run_.line), "a failed send in the write-ready arm must be followed by onClosed()")
+        chk.bad("C14.T7", run_, "drain-failure-without-close", "%s:%s" % (run_.file, run_.line),
+                "a failed send in the write-ready arm must be followed by onClosed(), and only a failed one (table: %s)" % (
+                    {k: v[0] for k, v in (tabd or {}).items()}))
     # ------------------------------------------------------------------ T8
     for f in (sfn(prog, P + "Private"), sfn(prog, P + "clear")):
         ins0 = [c for c in q.calls(f) if re.search(r"_queuedTimers\.insert\(0, 0\)", q.no_casts(f.r(c)).replace("(Server::Private::TimerImpl *)", ""))]
